@@ -81,7 +81,7 @@ type worldDef struct {
 var quickWorlds = []worldDef{
 	{"paths-share-point", map[string]string{"point1": "tagged", "point2": "plain", "points3+4": "both", "pathA": "open-refs", "pathB": "open-shares-p2"}},
 	{"area-by-path", map[string]string{"point1": "plain", "point2": "plain", "points3+4": "both", "pathA": "closed-ccw-refs", "area1": "by-pathA"}},
-	{"relations", map[string]string{"point1": "tagged", "point2": "tagged", "pathA": "mixed", "area1": "polygon", "rel1": "point+path", "rel2": "of-rel1"}},
+	{"relations", map[string]string{"point1": "tagged", "point2": "tagged", "pathA": "mixed", "pathB": "latlngs-closed", "rel1": "point+path", "rel2": "of-rel1"}},
 	{"relation-of-area", map[string]string{"point1": "tagged", "point2": "tagged", "pathB": "latlngs-closed", "area1": "polygon", "rel1": "area+missing", "rel2": "of-rel1"}},
 }
 
